@@ -58,9 +58,23 @@ def dyadic8(x):
 class P(Prop):
     id = "C05"
     design_ref = "DESIGN.md section 5, C05"
-    theorems = []
+    M = "TracklibVerif.Props.C05"
+    theorems = [
+        (M, "TV.C05.temporal_count", "T1: for a chronological list of instants __resampleTemporal returns, without raising, exactly one observation per instant in (tini, tfin], in order, stamped with it"),
+        (M, "TV.C05.temporal_bracket", "T2: with strictly increasing stamps the sample at t uses the unique leg r>=1 with T[r-1] < t <= T[r] (positive denominator) and is P[r-1] + ((t-T[r-1])/(T[r]-T[r-1]))(P[r]-P[r-1]) in x, y, z"),
+        (M, "TV.C05.temporal_number_step", "T1/T2 for a numeric step d>0: prepareTimeSampling + the loop return exactly the samples at tini+d, ..., tini+Kd with tini+Kd <= tfin < tini+(K+1)d"),
+        (M, "TV.C05.spatial_samples", "T3a: __resampleSpatial returns the first fix followed by the samples at abscissas ds, ..., N ds with N ds <= L < (N+1) ds"),
+        (M, "TV.C05.spatial_on_polyline", "T3: the sample at abscissa s in (0,L] lies on the unique leg r with S[r-1] < s <= S[r], of positive length, at fraction f in (0,1], at curvilinear abscissa s; x, y, z, t interpolated with f"),
+        (M, "TV.C05.spatial_time_monotone", "T4: with non-decreasing stamps the timestamps of the spatially resampled track never decrease"),
+        (M, "TV.C05.spatial_legs", "T3b: the accumulated leg lengths are the non-negative 2D distances (square = dx^2+dy^2) for any sqrt meeting math.sqrt's contract"),
+        (M, "TV.C05.frontend", "Track.resample: feature table reset to empty; explicit delta = the private routine; delta=None = the call with step (1+1e-8) D/npts"),
+    ]
     partial = []
-    open_statements = []
+    open_statements = [
+        "IEEE rounding is outside the theorems (ordered field): float overshoot int(L/ds)*ds > L (finding spatial-float-overshoot), loss of the (1+1e-8) guard on epoch-scale stamps and the truncation of the millisecond field are only sampled by the transfer check",
+        "requested instants that are not in chronological order are outside T1/T2 (the code does not interpolate them: finding unsorted-request-list)",
+        "stamping an output with ObsTime.readUnixTime(t) is C03's theorem; C05 theorems speak about t in seconds",
+    ]
     modelled = ("tracklib/algo/interpolation.py prepareTimeSampling, __resampleTemporal, __resampleSpatial and the ALGO_LINEAR "
                 "branches of resample(); tracklib/core/track.py Track.resample (delta from npts/factor with the (1+1e-8) guard, "
                 "mode dispatch, reset of the feature table); ENUCoords.distance2DTo/distanceTo as sqrt parameters; "
